@@ -48,6 +48,20 @@ func verifSameValue(a, b octosql.Value) bool {
 	return false
 }
 
+// verifAssertSameValues asserts element by element, durations first: the duration round trip
+// (x/1e9*1e9, decided by the cvc5 integer back end) is undecided as soon as a floating-point fact
+// of an earlier assertion is part of the path condition.
+func verifAssertSameValues(a, b []octosql.Value, tag string) {
+	zzverif.Assert(len(a) == len(b), tag+"-count")
+	for pass := 0; pass < 2; pass++ {
+		for i := range a {
+			if (a[i].TypeID == octosql.TypeIDDuration) == (pass == 0) {
+				zzverif.Assert(verifSameValue(a[i], b[i]), tag)
+			}
+		}
+	}
+}
+
 func verifSameValues(a, b []octosql.Value) bool {
 	if len(a) != len(b) {
 		return false
@@ -122,6 +136,38 @@ func verifNDTime(name string) time.Time {
 	return octosql.VerifNDScalar(name, octosql.VKTime, 0).Time
 }
 
+// verifDurations: the durations used inside records and variable contexts (an arbitrary duration
+// is covered by VerifC26Value; every symbolic duration costs several slow integer-division queries).
+var verifDurations = []time.Duration{0, 1, -1, 1500 * time.Millisecond, -1500 * time.Millisecond, 1<<63 - 1, -1 << 63}
+
+// verifNDValue is octosql.VerifNDValue with durations drawn from verifDurations.
+func verifNDValue(name string, depth, maxElems, strLen int) octosql.Value {
+	n := octosql.VKList
+	if depth > 0 {
+		n = octosql.VKCount
+	}
+	kind := zzverif.Choice(name+".kind", n)
+	if kind == octosql.VKDuration {
+		return octosql.NewDuration(verifDurations[zzverif.Choice(name+".dur", len(verifDurations))])
+	}
+	if kind < octosql.VKList {
+		return octosql.VerifNDScalar(name, kind, strLen)
+	}
+	cnt := zzverif.Choice(name+".n", maxElems+1)
+	elems := make([]octosql.Value, cnt)
+	for i := range elems {
+		elems[i] = verifNDValue(fmt.Sprintf("%s.%d", name, i), depth-1, maxElems, strLen)
+	}
+	switch kind {
+	case octosql.VKList:
+		return octosql.NewList(elems)
+	case octosql.VKStruct:
+		return octosql.NewStruct(elems)
+	default:
+		return octosql.NewTuple(elems)
+	}
+}
+
 func verifNDFields(name string, maxFields, depth, elems, strLen int) []physical.SchemaField {
 	n := zzverif.Choice(name+".fields", maxFields+1)
 	out := make([]physical.SchemaField, n)
@@ -176,7 +222,7 @@ func VerifC26Record() {
 	n := zzverif.Choice("r.n", zzverif.Param("N")+1)
 	values := make([]octosql.Value, n)
 	for i := range values {
-		values[i] = octosql.VerifNDValue(fmt.Sprintf("r.%d", i), zzverif.Param("D"), zzverif.Param("E"), zzverif.Param("S"))
+		values[i] = verifNDValue(fmt.Sprintf("r.%d", i), zzverif.Param("D"), zzverif.Param("E"), zzverif.Param("S"))
 	}
 	rec := execution.Record{Values: values, Retraction: zzverif.Bool("r.retraction")}
 	if zzverif.Choice("r.hastime", 2) == 1 {
@@ -184,7 +230,7 @@ func VerifC26Record() {
 	}
 	out := NativeRecordToProto(rec).ToNativeRecord()
 	zzverif.Reach("converted")
-	zzverif.Assert(verifSameValues(rec.Values, out.Values), "same-values")
+	verifAssertSameValues(rec.Values, out.Values, "same-values")
 	zzverif.Assert(out.Retraction == rec.Retraction, "same-retraction")
 	zzverif.Assert(verifSameInstant(rec.EventTime, out.EventTime), "same-event-time")
 	zzverif.Assert(out.EventTime.IsZero() == rec.EventTime.IsZero(), "zero-event-time-preserved")
@@ -227,17 +273,22 @@ func VerifC26ExecutionContext() {
 		n := zzverif.Choice(fmt.Sprintf("c.%d.n", i), zzverif.Param("N")+1)
 		values := make([]octosql.Value, n)
 		for j := range values {
-			values[j] = octosql.VerifNDValue(fmt.Sprintf("c.%d.%d", i, j), zzverif.Param("D"), zzverif.Param("E"), zzverif.Param("S"))
+			values[j] = verifNDValue(fmt.Sprintf("c.%d.%d", i, j), zzverif.Param("D"), zzverif.Param("E"), zzverif.Param("S"))
 		}
 		c = &execution.VariableContext{Parent: c, Values: values}
 	}
 	out := NativeExecutionVariableContextToProto(c).ToNativeExecutionVariableContext()
 	zzverif.Reach("converted")
+	// frame structure first, then all values of all frames (durations first, see verifAssertSameValues)
+	var want, have []octosql.Value
 	a, b := c, out
 	for i := 0; i < fr; i++ {
 		zzverif.Assert(b != nil, "frame-present")
-		zzverif.Assert(verifSameValues(a.Values, b.Values), "same-frame")
+		zzverif.Assert(len(a.Values) == len(b.Values), "same-frame-size")
+		want = append(want, a.Values...)
+		have = append(have, b.Values...)
 		a, b = a.Parent, b.Parent
 	}
 	zzverif.Assert(b == nil, "no-extra-frame")
+	verifAssertSameValues(want, have, "same-frame-values")
 }
